@@ -309,6 +309,25 @@ func (h *h3run) writerResponse(r *u.Rng, i int) {
 	if r.Chance(1, 6) {
 		trailerVals[http.TrailerPrefix+"X-Late"] = []string{"v"}
 	}
+	// trailer sets in which nothing (or not everything) can be sent: declared but never filled in,
+	// empty value slices, names that may not be sent in a trailer section
+	switch r.Intn(10) {
+	case 0: // declared, never filled in
+		trailerVals = http.Header{}
+		hdr["Trailer"] = []string{"X-T1"}
+	case 1: // declared, empty value slice
+		trailerVals = http.Header{"X-T1": {}}
+		hdr["Trailer"] = []string{"X-T1"}
+	case 2: // only names that must not be sent as trailers, through the "Trailer:" prefix
+		trailerVals = http.Header{http.TrailerPrefix + pick(r, []string{"Upgrade", "Connection", "Keep-Alive"}): {"x"}}
+		delete(hdr, "Trailer")
+	case 3: // mixture: one sendable with a value, one empty, one unsendable
+		trailerVals = http.Header{"X-T1": {"v"}, "Grpc-Status": {}, http.TrailerPrefix + "Upgrade": {"x"}}
+		hdr["Trailer"] = []string{"X-T1, Grpc-Status"}
+	case 4: // only an empty late trailer
+		trailerVals = http.Header{http.TrailerPrefix + "X-Late": {}}
+		delete(hdr, "Trailer")
+	}
 	early := r.Bool()
 	detail := fmt.Sprintf("response status=%d body=%d header=%q trailers=%q trailers-set-before-WriteHeader=%v", status, len(body), hdr, trailerVals, early)
 	defer func() {
@@ -317,10 +336,45 @@ func (h *h3run) writerResponse(r *u.Rng, i int) {
 		}
 	}()
 	fs, tfs, err := http3.VerifEncodeResponse(status, hdr, body, trailerVals, early)
+	if err != nil && strings.HasPrefix(err.Error(), "verif: trailers:") {
+		h.dist["response-trailers:undecodable"]++
+		h.monfail("h3writers/response-trailers-undecodable", "the response writer emitted a trailer HEADERS frame the peer cannot decode: "+err.Error(), detail)
+		err = nil
+	}
 	if err != nil {
 		h.dist["response:writer-error"]++
 		h.monfail("h3writers/response-undecodable", err.Error(), detail)
 		return
+	}
+	// emit / no-emit decision: a trailer section is sent iff some declared (or "Trailer:"-prefixed),
+	// sendable trailer has at least one value; an all-skipped set must emit NO section
+	{
+		sendable := func(k string) bool {
+			lk := strings.ToLower(k)
+			return !rfcNoTrailer[lk] && !rfcConnSpecific[lk] && !strings.HasPrefix(lk, "if-")
+		}
+		want := false
+		for _, v := range hdr["Trailer"] {
+			for _, t := range strings.Split(v, ",") {
+				t = http.CanonicalHeaderKey(strings.TrimSpace(t))
+				if sendable(t) && len(trailerVals[t]) > 0 {
+					want = true
+				}
+			}
+		}
+		for k, vs := range trailerVals {
+			if strings.HasPrefix(k, http.TrailerPrefix) && sendable(strings.TrimPrefix(k, http.TrailerPrefix)) && len(vs) > 0 {
+				want = true
+			}
+		}
+		if want != (tfs != nil) && err == nil {
+			h.monfail("h3writers/response-trailers-emit-decision", fmt.Sprintf("trailer section emitted=%v, want %v", tfs != nil, want), detail)
+		}
+		if want {
+			h.dist["response-trailers:expected"]++
+		} else {
+			h.dist["response-trailers:none-expected"]++
+		}
 	}
 	detail += " emitted=" + fieldsText(fs)
 	if i < 6 {
@@ -412,6 +466,21 @@ func (h *h3run) writerTrailers(r *u.Rng, i int) {
 	if r.Chance(1, 5) {
 		tr[wHopNames[r.Intn(len(wHopNames))]] = []string{"x"}
 	}
+	// trailer maps in which nothing (or not everything) is encodable
+	switch r.Intn(10) {
+	case 0: // announced as net/http documents it, never filled in
+		tr = http.Header{"X-Checksum": nil}
+	case 1: // empty value slices only
+		tr = http.Header{"X-Checksum": {}, "X-T1": nil}
+	case 2: // only names that may not be sent in a trailer section
+		tr = http.Header{pick(r, wBadTrail): {"x"}, pick(r, wHopNames): {"y"}}
+	case 3: // mixture
+		tr = http.Header{"X-Checksum": nil, "Content-Length": {"5"}, "X-T1": {"v"}, "Upgrade": {"x"}}
+	case 4:
+		tr = http.Header{}
+	case 5: // unsendable with value + sendable without
+		tr = http.Header{"Upgrade": {"x"}, "X-T1": {}}
+	}
 	detail := fmt.Sprintf("request trailers=%q", tr)
 	defer func() {
 		if p := recover(); p != nil {
@@ -420,8 +489,18 @@ func (h *h3run) writerTrailers(r *u.Rng, i int) {
 	}()
 	fs, written, err := http3.VerifEncodeRequestTrailers(tr)
 	if err != nil {
-		h.monfail("h3writers/trailers-undecodable", err.Error(), detail)
+		h.monfail("h3writers/trailers-undecodable", "writeTrailers emitted a HEADERS frame the peer cannot decode: "+err.Error(), detail)
 		return
+	}
+	wantWritten := false
+	for k, vs := range tr {
+		lk := strings.ToLower(k)
+		if !rfcNoTrailer[lk] && !rfcConnSpecific[lk] && !strings.HasPrefix(lk, "if-") && len(vs) > 0 {
+			wantWritten = true
+		}
+	}
+	if written != wantWritten {
+		h.monfail("h3writers/trailers-emit-decision", fmt.Sprintf("trailer section written=%v, want %v (an all-skipped trailer set must emit no section)", written, wantWritten), detail)
 	}
 	if !written {
 		h.dist["trailers:none-written"]++
@@ -436,6 +515,11 @@ func (h *h3run) writerTrailers(r *u.Rng, i int) {
 	}
 	h.dist["trailers:accepted"]++
 	want := lowerKeys(tr, func(k string) bool { return rfcNoTrailer[k] || rfcConnSpecific[k] || strings.HasPrefix(k, "if-") })
+	for k, vs := range want {
+		if len(vs) == 0 { // announced, never filled in: nothing to send
+			delete(want, k)
+		}
+	}
 	if !sameMultimap(lowerKeys(got, nil), want) {
 		h.monfail("h3writers/trailers-differ", fmt.Sprintf("trailers %q after the round trip, want %q", got, want), detail)
 	}
